@@ -34,10 +34,10 @@ ASSUMPTIONS = [
 def plan(tier, seed):
     specs = []
     # trigger-position sweeps of dynamic reordering (machinery of C09)
-    for s_ in range(6 if tier == 'thorough' else 2):
+    for s_ in range(16 if tier == 'thorough' else 2):
         specs.append(dict(kind='schedule', seed=seed * 100 + 60 + s_,
                           only=['image', 'preimage'],
-                          examples=200 if tier == 'thorough' else 40))
+                          examples=400 if tier == 'thorough' else 40))
     # two variables: x, xp
     for order in (['x', 'xp'], ['xp', 'x']):
         specs.append(dict(kind='one', names=['x', 'xp'], order=order,
@@ -56,9 +56,9 @@ def plan(tier, seed):
             specs.append(dict(kind='one', names=['x', 'xp', 'y'],
                               order=order, stride=16,
                               offset=(seed + k) % 16, seed=seed))
-    for s in range(12 if tier == 'thorough' else 5):
+    for s in range(32 if tier == 'thorough' else 5):
         specs.append(dict(kind='random', seed=seed * 100 + s,
-                          examples=1500 if tier == 'thorough' else 300))
+                          examples=4000 if tier == 'thorough' else 300))
     return specs
 
 
